@@ -658,7 +658,7 @@ class _Parser(object):
             return Empty()
         start = self.i
         outside = None
-        for alt in (self.mixture, self.compound, self.part):
+        for alt in (self.mixture, self.part):      # `part` is a parenthesised mixture or a compound
             self.i = start
             try:
                 node = alt()
@@ -1187,6 +1187,20 @@ def random_amount(rng, wide=True):
     return plain_decimal(rng.randint(1, 999), rng.randint(-6, 6), rng.random() < 0.7)
 
 
+def force_seps(node, sep):
+    """write every separator of a compound as `sep` (in place); used where the white-space readings that
+    C01 reports on ("2A B", "(A) 2B") must not influence another property's check"""
+    if isinstance(node, Compound):
+        node.seps = [sep] * (len(node.groups) - 1)
+        for g in node.groups:
+            force_seps(g, sep)
+    elif isinstance(node, Group) and node.explicit:
+        node.seps = [sep] * (len(node.items) - 1)
+        for g in node.items:
+            force_seps(g, sep)
+    return node
+
+
 def random_part(rng, depth, need_density=False, p_missing=0.0, info=None):
     r = rng.random()
     if depth > 0 and r < 0.3:
@@ -1198,7 +1212,7 @@ def random_part(rng, depth, need_density=False, p_missing=0.0, info=None):
     if need_density and rng.random() >= p_missing:
         return simple_compound(rng.choice(PARTS_WITH_DENSITY))
     if info is not None and rng.random() < 0.3:
-        c = random_derivation(rng, 1, info, max_groups=2, density=False)
+        c = force_seps(random_derivation(rng, 1, info, max_groups=2, density=False), rng.choice(["+", " + "]))
         if need_density or rng.random() < 0.5:
             c.density = (rng.choice(["1.5", "2", ".9", "3.25", "7."]), rng.choice(["", "n", "i"]))
         return c
